@@ -175,8 +175,8 @@ func Intersection(limit int, sets ...*Set) (*Set, bool) {
 	// Use divide & conquer to get the set intersections
 	switch len(sets) {
 	case 1:
-		// Return a copy: the result must not share its members with the operand.
-		return NewSet(sets[0].GetAll()), false
+		// Return a copy (the result must not share its members with the operand) cut at the limit.
+		return Intersection(limit, sets[0], sets[0])
 	case 2:
 		intersection := NewSet([]string{})
 		var limitReached bool
@@ -191,14 +191,11 @@ func Intersection(limit int, sets ...*Set) (*Set, bool) {
 		}
 		return intersection, limitReached
 	default:
-		left, stop := Intersection(limit, sets[0:len(sets)/2]...)
-		if stop { // Check if limit is reached by left, if it is, return left
-			return left, stop
-		}
-		right, stop := Intersection(limit, sets[len(sets)/2:]...)
-		if stop { // Check if limit is reached by right, if it is, return right
-			return right, stop
-		}
+		// The limit bounds the cardinality of the final result only. The two halves must be
+		// intersected completely: a half cut at the limit may have lost the very members that
+		// are in the other half, and may contain members that are not.
+		left, _ := Intersection(0, sets[0:len(sets)/2]...)
+		right, _ := Intersection(0, sets[len(sets)/2:]...)
 		return Intersection(limit, left, right)
 	}
 }
